@@ -25,6 +25,8 @@ from vsc.model.expr_bin_model import ExprBinModel
 from vsc.model.bin_expr_type import BinExprType
 from vsc.model.expr_fieldref_model import ExprFieldRefModel
 from vsc.model.field_array_model import FieldArrayModel
+from vsc.model.expr_unary_model import ExprUnaryModel
+from vsc.model.unary_expr_type import UnaryExprType
 
 class ConstraintUniqueModel(ConstraintModel):
     
@@ -38,19 +40,31 @@ class ConstraintUniqueModel(ConstraintModel):
 
         # Elements in the unique list might be arrays        
         unique_l = []
+        # Condition under which an entry takes part (None: always)
+        guard_l = []
         
         for i in self.unique_l:
             if isinstance(i, ExprFieldRefModel) and isinstance(i.fm, FieldArrayModel):
                 # Collect up the array elements
-                self._add_list_elems(unique_l, i.fm)
+                for k,f in enumerate(i.fm.field_l):
+                    unique_l.append(ExprFieldRefModel(f))
+                    # (an element beyond the solved size of a random-size
+                    # list is not part of the list)
+                    guard_l.append(i.fm.in_list_expr(k) if i.fm.size_is_solved() else None)
             else:
                 unique_l.append(i)
+                guard_l.append(None)
                 
         if len(unique_l) > 1:
             for i in range(len(unique_l)):
                 for j in range(i+1, len(unique_l)):
                     t = ExprBinModel(unique_l[i], BinExprType.Ne, unique_l[j])
-                    from vsc.visitors import ModelPrettyPrinter
+                    for g in (guard_l[i], guard_l[j]):
+                        if g is not None:
+                            t = ExprBinModel(
+                                ExprUnaryModel(UnaryExprType.Not, g),
+                                BinExprType.Or,
+                                t)
                         
                     if ret is None:
                         ret = t.build(btor)
